@@ -647,6 +647,15 @@ func renderTrace(ep *Episode) []string {
 			}
 		}
 	}
+	if *fTrace {
+		for _, sw := range ep.Res.Switches {
+			why := "preempted"
+			if sw.FromBlock != "" {
+				why = sw.FromBlock
+			}
+			ls = append(ls, line{sw.Step, fmt.Sprintf("      ~ switch t%d (%s, %s) -> t%d (after %s)", sw.From, siteStr(sw.FromSite), why, sw.To, siteStr(sw.ToSite))})
+		}
+	}
 	sort.SliceStable(ls, func(a, b int) bool { return ls[a].seq < ls[b].seq })
 	var out []string
 	for _, l := range ls {
